@@ -407,4 +407,5 @@ def controls(repo):
         substitute(fn, pred, make, limit=1, expect=1)
     out.append(('distance-through-angle-converter', repo.variant({'api/app.py': replace_in_function(src, 'handle_vincdir', dist_conv)}), 'handle_vincdir::arg::ell_dist'))
     out.append(('identity-test-on-a-string', text_variant(repo, 'api/app.py', "    angle = dd_to_angle_type[to_angle_type]\n", "    angle = dd_to_angle_type[to_angle_type if to_angle_type is not 'dd' else 'dd']\n"), 'identity-test'))
+    out.append(('request-hook-answers', text_variant(repo, 'api/app.py', "@app.route('/vincinv')", "@app.before_request\ndef gate():\n    if len(request.args) > 8:\n        return jsonify({}), 400\n\n\n@app.route('/vincinv')"), 'gate::request-hook'))
     return out
